@@ -231,7 +231,7 @@ func (w *World) Exec(o *tr.Op) string {
 		if res != "ok" {
 			return res
 		}
-		return "ok txs=" + SysTxList(txs) + " ;; raw=" + SysTxRawHex(txs)
+		return "ok txs=" + SysTxList(txs) + " raw=" + SysTxRawHex(txs)
 	case "lock.dequeue":
 		var txs []*ethtypes.Transaction
 		res := w.RunTx(w.ctxAt(o), func(ctx sdk.Context) error {
@@ -248,7 +248,7 @@ func (w *World) Exec(o *tr.Op) string {
 		if res != "ok" {
 			return res
 		}
-		return "ok txs=" + SysTxList(txs) + " ;; raw=" + SysTxRawHex(txs)
+		return "ok txs=" + SysTxList(txs) + " raw=" + SysTxRawHex(txs)
 	}
 	return "unknown-op " + o.Kind
 }
